@@ -642,6 +642,7 @@ func c13RunWS(c *c13Case) {
 			case <-ctx.Done():
 				return ctx.Err()
 			case send <- big:
+			case <-recv: // what the client says is taken and ignored
 			}
 		}
 	})
@@ -653,7 +654,7 @@ func c13RunWS(c *c13Case) {
 	}
 	relay := mocrelay.NewRelay(h, opt)
 	// the option value stays the caller's: it is reused for something else after NewRelay
-	*opt = mocrelay.RelayOption{}
+	opt.SendTimeout, opt.PingDuration = 0, 0
 	srv := httptest.NewServer(relay)
 
 	dctx, dcancel := context.WithTimeout(context.Background(), 5*time.Second)
